@@ -506,6 +506,64 @@ func Run(in Input) Obs {
 	return runSearch(in)
 }
 
+// human-readable rendering for replay files and evidence samples
+func (r Rule) String() string { return r.From.String() + "->" + r.To.String() }
+func rulesText(rs []Rule) string {
+	parts := make([]string, len(rs))
+	for i, r := range rs {
+		parts[i] = r.String()
+	}
+	return "[" + strings.Join(parts, ", ") + "]"
+}
+func objsText(os []Obj) string {
+	parts := make([]string, len(os))
+	for i, o := range os {
+		parts[i] = fmt.Sprintf("o%d@%s", o.Id, o.V)
+	}
+	return "[" + strings.Join(parts, " ") + "]"
+}
+func readable(in Input, obs *Obs) []string {
+	out := []string{"rules " + rulesText(in.Rules)}
+	if in.Kind == "handler" {
+		out = append(out, fmt.Sprintf("request: %d object(s) at %s, desired %s; plan %v", in.NReq, in.Src, in.Desired, in.Plan))
+		if obs.ChainFound {
+			out = append(out, "chain "+rulesText(obs.Chain))
+		} else {
+			out = append(out, "chain: none")
+		}
+		for k, t := range obs.Trace {
+			o := "?"
+			if k < len(obs.Outs) {
+				o = fmt.Sprintf("%s msg=%d %s", obs.Outs[k].Kind, obs.Outs[k].Msg, objsText(obs.Outs[k].Objs))
+			}
+			out = append(out, fmt.Sprintf("run %d: %s for %s received %s; it produced %s", k, t.Who, t.Rule, objsText(t.Objs), o))
+		}
+		if obs.Ans != nil {
+			if obs.Ans.Success {
+				out = append(out, "answer: Success "+objsText(obs.Ans.Objs))
+			} else {
+				out = append(out, fmt.Sprintf("answer: Failed (%s) %q", obs.Ans.Msg, obs.Ans.Raw))
+			}
+		}
+		return out
+	}
+	mode := "fresh storage per query"
+	if in.Shared {
+		mode = "one shared storage"
+	}
+	out = append(out, mode)
+	for i, q := range in.Queries {
+		if i < len(obs.Answers) {
+			if obs.Found[i] {
+				out = append(out, q.String()+" => "+rulesText(obs.Answers[i]))
+			} else {
+				out = append(out, q.String()+" => nil")
+			}
+		}
+	}
+	return out
+}
+
 // ---------------------------------------------------------------- Render
 
 // compact Coq notation of C15_Corr: a version is 4*short+group, a rule is `r a b`, a chain
@@ -588,7 +646,7 @@ func Render(in Input, obs *Obs, crash string) core.Case {
 			coqObjs(mkObjs(1, in.NReq, in.Src)), core.CoqList(obs.Outs, coqOutcome),
 			core.CoqList(obs.Trace, func(i Inv) string { return fmt.Sprintf("(%d,%s)", ruleIndex(in.Rules, i.Rule), coqObjs(i.Objs)) }),
 			coqAnswer(obs.Ans))
-		c.JSON = obs
+		c.JSON = map[string]any{"obs": obs, "readable": readable(in, obs)}
 		c.Key = fmt.Sprintf("H %s %s %s %d %v", coqRules(in.Rules), coqVer(in.Src), coqVer(in.Desired), in.NReq, in.Plan)
 		c.Nontrivial = obs.ChainFound && len(obs.Trace) > 0
 		c.Tags = append(c.Tags, fmt.Sprintf("chainlen:%d", len(obs.Chain)), fmt.Sprintf("runs:%d", len(obs.Trace)))
@@ -623,7 +681,7 @@ func Render(in Input, obs *Obs, crash string) core.Case {
 		}
 	}
 	c.Coq = fmt.Sprintf("CS %s %s\n  %s\n  [%s]", coqRules(in.Rules), core.CoqBool(in.Shared), coqRules(in.Queries), strings.Join(answers, "; "))
-	c.JSON = obs
+	c.JSON = map[string]any{"obs": obs, "readable": readable(in, obs)}
 	c.Key = fmt.Sprintf("S %s %v %s", coqRules(in.Rules), in.Shared, coqRules(in.Queries))
 	c.Nontrivial = len(in.Rules) >= 2 && longest >= 2
 	c.Tags = append(c.Tags, fmt.Sprintf("longest:%d", longest), fmt.Sprintf("queries:%02d", len(in.Queries)/8*8))
@@ -804,22 +862,54 @@ func (g *gen) handlerCase() Input {
 	if g.r.Chance(3) {
 		in.NReq = 0
 	}
-	// mostly ask for something reachable: source = tail of a random rule, target = any node
-	a, b := nodes[g.r.Intn(len(nodes))], nodes[g.r.Intn(len(nodes))]
-	if g.r.Chance(70) {
+	// mostly ask for something reachable (the generator's own breadth-first distances are used
+	// only to place the request and the faults, never to judge)
+	a := nodes[g.r.Intn(len(nodes))]
+	if g.r.Chance(60) {
 		a = nodes[0]
-		b = nodes[len(nodes)-1]
+	}
+	dist := map[int]int{a: 0}
+	for changed := true; changed; {
+		changed = false
+		for _, r := range rules {
+			if d, ok := dist[r.From.S]; ok {
+				if _, seen := dist[r.To.S]; !seen {
+					dist[r.To.S] = d + 1
+					changed = true
+				}
+			}
+		}
+	}
+	var reach []int
+	for _, n := range nodes {
+		if n != a && dist[n] > 0 {
+			reach = append(reach, n)
+		}
+	}
+	b := nodes[g.r.Intn(len(nodes))]
+	if len(reach) > 0 && g.r.Chance(88) {
+		b = reach[g.r.Intn(len(reach))]
+		for try := 0; try < 2; try++ { // prefer far targets
+			if c := reach[g.r.Intn(len(reach))]; dist[c] > dist[b] {
+				b = c
+			}
+		}
 	}
 	in.Src, in.Desired = g.spell(a, "mixed", 1), g.spell(b, "mixed", 1)
-	// plan: ok everywhere, with at most one fault (60%) at a random position, sometimes a second one
+	steps := dist[b]
+	if steps < 1 {
+		steps = 1
+	}
+	// plan: ok everywhere, with one fault (65%) at a position the chain probably reaches,
+	// sometimes a second one anywhere
 	for k := 0; k < 8; k++ {
 		in.Plan = append(in.Plan, Step{Kind: "ok"})
 	}
-	if g.r.Chance(60) {
-		pos := g.r.Intn(4)
+	if g.r.Chance(65) {
+		pos := g.r.Intn(steps)
 		in.Plan[pos] = Step{Kind: faultKinds[g.r.Intn(len(faultKinds))], Msg: 1 + g.r.Intn(5)}
 		if g.r.Chance(25) {
-			p2 := g.r.Intn(5)
+			p2 := g.r.Intn(steps + 1)
 			in.Plan[p2] = Step{Kind: faultKinds[g.r.Intn(len(faultKinds))], Msg: 1 + g.r.Intn(5)}
 		}
 	}
@@ -912,7 +1002,7 @@ func Gen(r *core.Rng, tier string) ([]core.In[Input], bool) {
 		add(c, "corpus")
 	}
 	g := &gen{r: r}
-	nGraphs, nHandler := 200, 120
+	nGraphs, nHandler := 200, 160
 	switch tier {
 	case "thorough":
 		nGraphs, nHandler = 10000, 1500
